@@ -29,7 +29,9 @@ LEVEL_NOTE = ("Lean kernel + standard axioms; hash collision-freeness and the UE
               "on the grid, not verified.")
 RULE = ("one case = one uploaded file (k/N/segment sizes incl. multi-segment, N >= 2k for the read-from-repaired-shares cases) with "
         "every share independently kept / deleted / corrupted in one named field / truncated / forged consistently, then "
-        "check(verify=False), check(verify=True) and check_and_repair; distinct = distinct (file, per-share plan, seed); "
+        "check(verify=False), check(verify=True) and check_and_repair (incl. a family with 1-2 shares corrupted in place at a named site "
+        "plus deletions, verify=True), whose post-repair results are compared field by field with a fresh check(verify=True) by a "
+        "second client; distinct = distinct (file, per-share plan, seed); "
         "non-trivial = at least one share deleted or altered.")
 TRUSTED = ["harness/grid.py", "the reference validity test of the monitor (layout-directed comparison of every stored item with "
            "the uploaded share: harness/props/c45.py items())"]
@@ -98,9 +100,56 @@ FILES = [(100, 1, 2, 32), (200, 2, 4, 64), (333, 3, 6, 42), (150, 1, 3, 64), (70
          (90, 2, 2, 1000)]
 
 
-def run_file(ctx, fidx, n_plans, seed, lines, impl, cases):
+def sm_of(sharemap, srv_of):
+    """{shnum: sorted server numbers} of a DictOfSets keyed by shnum with IServer values"""
+    return {sh: sorted(srv_of[s.get_serverid()] for s in servers) for sh, servers in sharemap.items() if servers}
+
+
+def sm_tok(sm):
+    return ";".join("%d:%s" % (sh, ".".join(map(str, srvs))) for sh, srvs in sorted(sm.items())) or "-"
+
+
+def compare_post_repair(ctx, rcase, crr, prr, fresh, srv_of, n):
+    """what check_and_repair(verify=True) reports about the state AFTER the repair vs a fresh verify of that state"""
+    post_sm = sm_of(prr.get_sharemap(), srv_of)
+    fresh_sm = sm_of(fresh.get_sharemap(), srv_of)
+    fields = [("is_healthy", prr.is_healthy(), fresh.is_healthy()),
+              ("repair_successful", crr.get_repair_successful() if crr.get_repair_attempted() else prr.is_healthy(), fresh.is_healthy()),
+              ("is_recoverable", prr.is_recoverable(), fresh.is_recoverable()),
+              ("count_shares_good", prr.get_share_counter_good(), fresh.get_share_counter_good()),
+              ("count_good_share_hosts", prr.get_host_counter_good_shares(), fresh.get_host_counter_good_shares())]
+    detail = {"post": {"sharemap": sm_tok(post_sm)}, "fresh": {"sharemap": sm_tok(fresh_sm)}}
+    for name, a, b in fields:
+        detail["post"][name] = a
+        detail["fresh"][name] = b
+    for name, a, b in fields:
+        if int(a) > int(b):
+            ctx.violation("post-repair results report %s=%s, a fresh verify of the same grid finds %s" % (name, a, b), rcase,
+                          "post-repair-results-overstate:" + name, detail)
+        elif int(a) < int(b):
+            ctx.violation("post-repair results report %s=%s, a fresh verify of the same grid finds %s" % (name, a, b), rcase,
+                          "post-repair-results-understate:" + name, detail)
+    extra = sorted((sh, srv) for sh, srvs in post_sm.items() for srv in srvs if srv not in fresh_sm.get(sh, ()))
+    missing = sorted((sh, srv) for sh, srvs in fresh_sm.items() for srv in srvs if srv not in post_sm.get(sh, ()))
+    if extra:
+        ctx.violation("post-repair sharemap lists (share, server) %s that a fresh verify does not find good" % (extra,), rcase,
+                      "post-repair-results-overstate:sharemap", detail)
+    if missing:
+        ctx.violation("a fresh verify finds good (share, server) %s that the post-repair sharemap lacks" % (missing,), rcase,
+                      "post-repair-results-understate:sharemap", detail)
+    if prr.is_healthy() and len(fresh_sm) < n:
+        ctx.violation("post-repair results say healthy with %d of %d distinct verified-good share numbers" % (len(fresh_sm), n), rcase,
+                      "post-repair-results-overstate:healthy-without-N-good", detail)
+    ctx.count("post-repair-compared")
+
+
+def run_file(ctx, fidx, n_plans, seed, lines, impl, cases, rlines=None, rimpl=None, rcases=None):
     import grid
     import random
+    from allmydata.immutable.filenode import CiphertextFileNode
+    rlines = [] if rlines is None else rlines
+    rimpl = [] if rimpl is None else rimpl
+    rcases = [] if rcases is None else rcases
     from allmydata.immutable import upload
     from allmydata import uri
     from allmydata.monitor import Monitor
@@ -111,7 +160,7 @@ def run_file(ctx, fidx, n_plans, seed, lines, impl, cases):
     mode = verifier_mode()
     hmode = C2.hashtree_mode()
     with grid.Runtime(seed=seed, policy=rng.choice(["random", "random", "fifo"])) as rt:
-        g = grid.Grid(grid.fresh_dir("c45"), rt, num_servers=n, k=k, happy=1, n=n, max_segment_size=maxseg)
+        g = grid.Grid(grid.fresh_dir("c45"), rt, num_servers=n, num_clients=2, k=k, happy=1, n=n, max_segment_size=maxseg)
         try:
             c = g.clients[0]
             res = rt.wait(c.upload(upload.Data(data, convergence=b"c45-convergence!")))
@@ -145,10 +194,16 @@ def run_file(ctx, fidx, n_plans, seed, lines, impl, cases):
                         os.unlink(t[2])
                 plan = {}
                 style = rng.random()
-                for t in files:
+                few = set()
+                if 0.25 <= style < 0.55:
+                    # one or two shares corrupted in place (the server keeps claiming them), some others deleted
+                    few = set(rng.sample(range(len(files)), min(len(files), rng.choice([1, 1, 2]))))
+                for ti, t in enumerate(files):
                     r = rng.random()
                     if style < 0.25:
                         act = "delete" if r < 0.5 else "keep"            # deletions only (repair should succeed)
+                    elif style < 0.55:
+                        act = ("forge" if r < 0.2 else "mutate-site") if ti in few else ("delete" if r < 0.3 else "keep")
                     elif r < 0.45:
                         act = "keep"
                     elif r < 0.62:
@@ -170,6 +225,16 @@ def run_file(ctx, fidx, n_plans, seed, lines, impl, cases):
                     if act == "forge":
                         body = forge(body, size, k)
                         desc[t[1]] = "forge"
+                    elif act == "mutate-site":
+                        rg = C2.regions(body)
+                        site = rng.choice(["data", "data", "crypttext_hash_tree", "block_hashes", "share_hashes", "ueb", "ueb_length",
+                                           "hdr:data", "hdr:uri_extension"])
+                        if rg[site][1] == 0:
+                            site = "data"
+                        m = {"kind": "flip", "region": site, "off": rng.randrange(rg[site][1]), "xor": rng.choice([1, 0x80, 0xff])}
+                        body = C2.apply_mutation(m, body, {})
+                        desc[t[1]] = C2.mut_class(m)
+                        plan[t] = m
                     elif act == "mutate":
                         m = C2.gen_mutation(rng, body, allow_swap=False)
                         body = C2.apply_mutation(m, body, {})
@@ -243,8 +308,15 @@ def run_file(ctx, fidx, n_plans, seed, lines, impl, cases):
                 node = C2.fresh_node(c, vcap.to_string() if via_verifycap else cap)
                 pre_files = {t: None for t in g.share_files(si)}
                 pre_body = {t: C2.read_body(t[2]) for t in pre_files}
-                use_verify = rng.random() < 0.7
+                use_verify = rng.random() < 0.7 or bool(few)
                 crr = None
+                gathered = []
+                orig_gather = CiphertextFileNode._gather_repair_results
+
+                def rec_gather(self_, ur, cr_, crr_):        # observation only
+                    gathered.append((sm_of(cr_.get_sharemap(), srv_of), sm_of(ur.get_sharemap(), srv_of)))
+                    return orig_gather(self_, ur, cr_, crr_)
+                CiphertextFileNode._gather_repair_results = rec_gather
                 try:
                     crr = wait(node.check_and_repair(Monitor(), verify=use_verify))
                     rstate = "attempted" if crr.get_repair_attempted() else "not-needed"
@@ -254,10 +326,29 @@ def run_file(ctx, fidx, n_plans, seed, lines, impl, cases):
                     rstate = "hang"
                 except Exception as e:
                     rstate = "raised:" + type(e).__name__
+                finally:
+                    CiphertextFileNode._gather_repair_results = orig_gather
                 C2.quiesce(rt, grid)
                 ctx.count("repair:" + rstate)
                 rcase = dict(case, via_verifycap=via_verifycap, verify=use_verify, repair=rstate)
                 post_files = sorted(g.share_files(si))
+                # (0) the post-repair results against a FRESH verify of the grid as it now is, by a second client
+                if crr is not None and use_verify:
+                    prr = crr.get_post_repair_results()
+                    c2nd = g.clients[1]
+                    fresh = None
+                    try:
+                        fresh = wait(C2.fresh_node(c2nd, cap).check(Monitor(), verify=True))
+                    except Exception as e:
+                        ctx.count("fresh-verify-raised:" + type(e).__name__)
+                    if fresh is not None:
+                        compare_post_repair(ctx, rcase, crr, prr, fresh, srv_of, n)
+                    if gathered:
+                        pre_sm, ur_sm = gathered[-1]
+                        rlines.append("postrepair %d %d %s %s" % (k, n, sm_tok(pre_sm), sm_tok(ur_sm)))
+                        rimpl.append("healthy=%d recoverable=%d good=%d" % (prr.is_healthy(), prr.is_recoverable(),
+                                                                            prr.get_share_counter_good()))
+                        rcases.append(dict(rcase, pre=sm_tok(pre_sm), ur=sm_tok(ur_sm)))
                 # (1) pre-existing share bodies untouched
                 for t in pre_body:
                     if not os.path.exists(t[2]):
@@ -398,14 +489,17 @@ def run(ctx):
     common.setup_impl_path()
     import grid  # noqa: F401
     lines, impl, cases = [], [], []
+    rlines, rimpl, rcases = [], [], []
     if ctx.replay and isinstance(ctx.replay.get("case"), dict) and "file" in ctx.replay["case"]:
         cs = ctx.replay["case"]
-        run_file(ctx, cs["file"], cs.get("pi", 0) + 1, cs["seed"], lines, impl, cases)
+        run_file(ctx, cs["file"], cs.get("pi", 0) + 1, cs["seed"], lines, impl, cases, rlines, rimpl, rcases)
     else:
         run_functions(ctx)
         for i in range(ctx.budget(12, 64)):
-            run_file(ctx, i, ctx.budget(30, 80), ctx.rng.randrange(1 << 30), lines, impl, cases)
+            run_file(ctx, i, ctx.budget(30, 80), ctx.rng.randrange(1 << 30), lines, impl, cases, rlines, rimpl, rcases)
     outs = ctx.model(lines)
     ctx.compare("per-share verdict of check(verify=True) vs the Lean verifier on the same share bytes", cases, impl, outs)
+    ctx.compare("CiphertextFileNode._gather_repair_results (healthy / recoverable / count-shares-good from the pre-repair sharemap "
+                "and the upload's sharemap) vs the model", rcases, rimpl, ctx.model(rlines))
     if cases:
         ctx.sample(cases[0])
